@@ -71,7 +71,7 @@ func checkC18(c *Ctx) {
 	if !c.Anchor("R18.1", "zapslog.convertAttrToField / log/slog", conv != nil && slog != nil) {
 		return
 	}
-	name := conv.String()
+	name := FStr(conv)
 	kindT := c.Named("log/slog", "Kind")
 	kinds := map[int64]string{}
 	for _, k := range c.ConstsOfType("log/slog", kindT) {
@@ -397,7 +397,7 @@ func checkC18(c *Ctx) {
 			zs = append(zs, r[0].I)
 		}
 		if evalErr != "" {
-			c.Und("R18.2", lvf.String(), "monotone", lvf.Pos(), "cannot evaluate the level map: %s", evalErr)
+			c.Und("R18.2", FStr(lvf), "monotone", lvf.Pos(), "cannot evaluate the level map: %s", evalErr)
 		} else {
 			mono := ""
 			for i := 1; i < len(zs); i++ {
@@ -426,7 +426,7 @@ func checkC18(c *Ctx) {
 					rng = fmt.Sprintf("slog level %d maps to %d, outside [Debug, Error] (slog has no level that may panic or exit)", pts[i], z)
 				}
 			}
-			c.Check(mono == "" && anch == "" && rng == "", "R18.2", lvf.String(), "monotone", lvf.Pos(), "evaluated on %d slog levels: the map is non-decreasing, sends slog's four named levels to zap's, and stays within [Debug, Error] %s %s %s", len(pts), mono, anch, rng)
+			c.Check(mono == "" && anch == "" && rng == "", "R18.2", FStr(lvf), "monotone", lvf.Pos(), "evaluated on %d slog levels: the map is non-decreasing, sends slog's four named levels to zap's, and stays within [Debug, Error] %s %s %s", len(pts), mono, anch, rng)
 		}
 		// shared
 		en := c.Method(SlogPath, "Handler", "Enabled")
@@ -434,10 +434,10 @@ func checkC18(c *Ctx) {
 		if c.Anchor("R18.2", "zapslog.Handler.Enabled/Handle", en != nil && hd != nil) {
 			for _, r := range Returns(en) {
 				d := Desc(RetVals(r)[0])
-				c.Check(d == "Enabled(h.core, convertSlogLevel(level))", "R18.2", en.String(), "enabled-uses-map", r.Pos(), "Enabled asks the core about the mapped level (%s)", d)
+				c.Check(d == "Enabled(h.core, convertSlogLevel(level))", "R18.2", FStr(en), "enabled-uses-map", r.Pos(), "Enabled asks the core about the mapped level (%s)", d)
 			}
 			okL := c18HandleChecksMapped(hd)
-			c.Check(okL, "R18.2", hd.String(), "handle-uses-map", hd.Pos(), "Handle stamps the entry with convertSlogLevel(record.Level)")
+			c.Check(okL, "R18.2", FStr(hd), "handle-uses-map", hd.Pos(), "Handle stamps the entry with convertSlogLevel(record.Level)")
 		}
 	}
 
@@ -451,7 +451,7 @@ func checkC18(c *Ctx) {
 				ok = Strip(RetVals(r)[0]) == ssa.Value(wg.Params[0])
 			}
 		}
-		c.Check(ok, "R18.3", wg.String(), "empty-name-returns-receiver", wg.Pos(), "slog.Handler: \"If the name is empty, WithGroup returns the receiver\"")
+		c.Check(ok, "R18.3", FStr(wg), "empty-name-returns-receiver", wg.Pos(), "slog.Handler: \"If the name is empty, WithGroup returns the receiver\"")
 	}
 	// ---------------- R18.4 ----------------
 	c18EmitProtocol(c, "R18.4")
@@ -481,7 +481,7 @@ func checkC18(c *Ctx) {
 				}
 			})
 		}
-		c.Check(len(bad) == 0, "R18.5", fn.String(), "pure", fn.Pos(), "no store through the receiver and no uncapped append onto its slices: %v", bad)
+		c.Check(len(bad) == 0, "R18.5", FStr(fn), "pure", fn.Pos(), "no store through the receiver and no uncapped append onto its slices: %v", bad)
 		c7Appends(c, "R18.5", fn)
 		c18Carries(c, "R18.5", fn)
 	}
@@ -515,7 +515,7 @@ func c18Explore(hd *ssa.Function) (seqs []string, trunc bool) {
 	return ConcPaths(hd, ConcCfg{
 		// the level map stays a call: the question is whether it is applied, not what it yields
 		Inline: func(h *ssa.Function) bool {
-			return !(h.Name() == "convertSlogLevel" && h.Pkg != nil && h.Pkg.Pkg.Path() == SlogPath)
+			return !(FNm(h) == "convertSlogLevel" && h.Pkg != nil && h.Pkg.Pkg.Path() == SlogPath)
 		},
 		Event: func(in ssa.Instruction, st *ConcState) string {
 			switch x := in.(type) {
@@ -611,7 +611,7 @@ func c18HandleChecksMapped(hd *ssa.Function) bool {
 func c18HandleProtocol(c *Ctx, hd *ssa.Function) {
 	seqs, trunc := c18Explore(hd)
 	if trunc || len(seqs) == 0 {
-		c.Und("R18.6", hd.String(), "checks", hd.Pos(), "path exploration of Handle incomplete")
+		c.Und("R18.6", FStr(hd), "checks", hd.Pos(), "path exploration of Handle incomplete")
 		return
 	}
 	var noCheck, badCore, notWritten, busy []string
@@ -653,20 +653,20 @@ func c18HandleProtocol(c *Ctx, hd *ssa.Function) {
 		}
 	}
 	if len(noCheck) > 0 {
-		c.Bad("R18.6", hd.String(), "checks", hd.Pos(), "Handle does not call Core.Check on every path: %v", uniqSorted(noCheck))
+		c.Bad("R18.6", FStr(hd), "checks", hd.Pos(), "Handle does not call Core.Check on every path: %v", uniqSorted(noCheck))
 		return
 	}
-	c.OK("R18.6", hd.String(), "checks", hd.Pos(), "every path of Handle (helpers inline, %d paths) puts one question to the core", len(seqs))
-	c.Check(len(badCore) == 0, "R18.6", hd.String(), "checks-core", hd.Pos(), "Handle asks its own core with a nil checked entry: %v", uniqSorted(badCore))
-	c.Check(len(notWritten) == 0, "R18.6", hd.String(), "writes-iff-accepted", hd.Pos(), "an accepted record is written exactly once on every path: %v", uniqSorted(notWritten))
-	c.Check(len(busy) == 0, "R18.6", hd.String(), "declined-does-nothing", hd.Pos(), "a declined record returns at once without any further call: %v", uniqSorted(busy))
+	c.OK("R18.6", FStr(hd), "checks", hd.Pos(), "every path of Handle (helpers inline, %d paths) puts one question to the core", len(seqs))
+	c.Check(len(badCore) == 0, "R18.6", FStr(hd), "checks-core", hd.Pos(), "Handle asks its own core with a nil checked entry: %v", uniqSorted(badCore))
+	c.Check(len(notWritten) == 0, "R18.6", FStr(hd), "writes-iff-accepted", hd.Pos(), "an accepted record is written exactly once on every path: %v", uniqSorted(notWritten))
+	c.Check(len(busy) == 0, "R18.6", FStr(hd), "declined-does-nothing", hd.Pos(), "a declined record returns at once without any further call: %v", uniqSorted(busy))
 }
 
 func calleeName(f *types.Func) string {
 	if f == nil {
 		return "?"
 	}
-	return f.Name()
+	return FNm(f)
 }
 
 func posOfCall(c *ssa.Call) token.Pos {
@@ -972,7 +972,7 @@ func c18Carries(c *Ctx, rule string, fn *ssa.Function) {
 			lost = append(lost, f+" "+got)
 		}
 	}
-	c.Check(len(lost) == 0 && len(bf) > 0, rule, fn.String(), "carries-settings", fn.Pos(), "the derived handler keeps every setting of its parent (name, caller and stack options, caller skip): %v", lost)
+	c.Check(len(lost) == 0 && len(bf) > 0, rule, FStr(fn), "carries-settings", fn.Pos(), "the derived handler keeps every setting of its parent (name, caller and stack options, caller skip): %v", lost)
 	for k, r := range Returns(fn) {
 		v := Strip(RetVals(r)[0])
 		okR := v == ssa.Value(h)
@@ -981,7 +981,7 @@ func c18Carries(c *Ctx, rule string, fn *ssa.Function) {
 				okR = true
 			}
 		}
-		c.Check(okR, rule, fn.String(), "returns-handler#"+itoa(k+1), r.Pos(), "returns the receiver or a *Handler (%s)", Desc(v))
+		c.Check(okR, rule, FStr(fn), "returns-handler#"+itoa(k+1), r.Pos(), "returns the receiver or a *Handler (%s)", Desc(v))
 	}
 }
 
@@ -1053,7 +1053,7 @@ func c18EmitProtocol(c *Ctx, rule string) {
 					}
 				}
 			}
-			c.Check(ok && strings.HasSuffix(over, "."+slogGroups), rule, f.String(), "emits-every-group", f.Pos(), "the emitter appends one Namespace field for every pending group, in order, no early exit (ranges over %s%s)", over, why)
+			c.Check(ok && strings.HasSuffix(over, "."+slogGroups), rule, FStr(f), "emits-every-group", f.Pos(), "the emitter appends one Namespace field for every pending group, in order, no early exit (ranges over %s%s)", over, why)
 		}
 		for _, fn := range []*ssa.Function{hd, wa} {
 			recv := fn.Params[0]
@@ -1061,7 +1061,7 @@ func c18EmitProtocol(c *Ctx, rule string) {
 			cut := 0
 			seqs, trunc := ConcPaths(fn, ConcCfg{
 				MaxIter: 3, IterClosures: true, Cut: &cut, MaxStates: 400000,
-				Inline: func(h *ssa.Function) bool { return !emitters[h] && h.Name() != "convertAttrToField" },
+				Inline: func(h *ssa.Function) bool { return !emitters[h] && FNm(h) != "convertAttrToField" },
 				Event: func(in ssa.Instruction, st *ConcState) string {
 					switch x := in.(type) {
 					case *ssa.Call:
@@ -1227,7 +1227,7 @@ func c18EmitProtocol(c *Ctx, rule string) {
 					return ""
 				},
 			})
-			n := fn.String()
+			n := FStr(fn)
 			if trunc || len(seqs) == 0 {
 				c.Und(rule, n, "emission-protocol", fn.Pos(), "path exploration incomplete (%d sequences, truncated=%v)", len(seqs), trunc)
 				continue
@@ -1236,7 +1236,7 @@ func c18EmitProtocol(c *Ctx, rule string) {
 			nEmit := 0
 			if os.Getenv("ZV_DEBUG") != "" {
 				for _, sq := range seqs {
-					fmt.Println("SEQ", fn.Name(), sq)
+					fmt.Println("SEQ", FNm(fn), sq)
 				}
 			}
 			// prefixes after which some path emits namespaces one by one (an inline loop over the pending groups): a path with
@@ -1358,7 +1358,7 @@ func cDelegatesOnly(c *Ctx, rule string, fn *ssa.Function, slot, what string, al
 		}
 	}
 	if encP == nil {
-		c.Und(rule, fn.String(), slot, fn.Pos(), "no encoder parameter")
+		c.Und(rule, FStr(fn), slot, fn.Pos(), "no encoder parameter")
 		return
 	}
 	resolve := func(st *ConcState, v ssa.Value) ssa.Value {
@@ -1397,7 +1397,7 @@ func cDelegatesOnly(c *Ctx, rule string, fn *ssa.Function, slot, what string, al
 			}
 			// a method of the encoder called directly, or the encoder handed to anything else
 			if x.Call.IsInvoke() && resolve(st, x.Call.Value) == encP {
-				direct = append(direct, "enc."+x.Call.Method.Name())
+				direct = append(direct, "enc."+FNm(x.Call.Method))
 				return "direct"
 			}
 			for _, a := range x.Call.Args {
@@ -1412,7 +1412,7 @@ func cDelegatesOnly(c *Ctx, rule string, fn *ssa.Function, slot, what string, al
 			return ""
 		},
 	})
-	c.Check(!trunc && len(seqs) > 0 && len(direct) == 0 && nDeleg > 0, rule, fn.String(), slot, fn.Pos(), "%s; direct uses of the encoder: %v", what, uniqSorted(direct))
+	c.Check(!trunc && len(seqs) > 0 && len(direct) == 0 && nDeleg > 0, rule, FStr(fn), slot, fn.Pos(), "%s; direct uses of the encoder: %v", what, uniqSorted(direct))
 }
 
 // slogGroups: the name of the field of zapslog.Handler that holds the groups opened by WithGroup and not yet emitted
